@@ -81,6 +81,7 @@ pub fn crash_point(site: &'static str) {
 // the harness closes the link.  Everything around it (supervisor, member table, the
 // "link died => remove member" code) runs unchanged.
 pub struct LinkEnd {
+    pub id: u64,
     pub from: String,
     pub to: String,
     pub is_primary: bool,
@@ -90,8 +91,9 @@ pub struct LinkEnd {
 lazy_static::lazy_static! {
     static ref LINK_MODE: std::sync::atomic::AtomicBool = std::sync::atomic::AtomicBool::new(false);
     static ref LINKS: Mutex<Vec<LinkEnd>> = Mutex::new(Vec::new());
-    static ref CLOSED: (Mutex<std::collections::HashSet<(String, String)>>, std::sync::Condvar) =
+    static ref CLOSED: (Mutex<std::collections::HashSet<u64>>, std::sync::Condvar) =
         (Mutex::new(std::collections::HashSet::new()), std::sync::Condvar::new());
+    static ref NEXT_LINK_ID: std::sync::atomic::AtomicU64 = std::sync::atomic::AtomicU64::new(1);
 }
 
 pub fn set_link_mode(on: bool) {
@@ -104,21 +106,22 @@ pub fn link_mode() -> bool {
 
 /// Called by start_replication in link mode; returns when the harness closes the link.
 pub fn open_link(from: String, to: String, is_primary: bool, receiver: futures::channel::mpsc::Receiver<String>) {
-    LINKS.lock().unwrap().push(LinkEnd { from: from.clone(), to: to.clone(), is_primary, receiver });
+    let id = NEXT_LINK_ID.fetch_add(1, std::sync::atomic::Ordering::SeqCst);
+    LINKS.lock().unwrap().push(LinkEnd { id, from, to, is_primary, receiver });
     let (lock, cv) = &*CLOSED;
     let mut closed = lock.lock().unwrap();
-    while !closed.contains(&(from.clone(), to.clone())) {
+    while !closed.contains(&id) {
         closed = cv.wait(closed).unwrap();
     }
-    closed.remove(&(from, to));
+    closed.remove(&id);
 }
 
 pub fn take_links() -> Vec<LinkEnd> {
     std::mem::take(&mut *LINKS.lock().unwrap())
 }
 
-pub fn close_link(from: &str, to: &str) {
+pub fn close_link(id: u64) {
     let (lock, cv) = &*CLOSED;
-    lock.lock().unwrap().insert((from.to_string(), to.to_string()));
+    lock.lock().unwrap().insert(id);
     cv.notify_all();
 }
